@@ -383,6 +383,11 @@ func (exp *SplitExp) resolveRefs(self, siblings map[string]*ResolvedBinding,
 	case *BoundReference:
 		re, err := s.Exp.resolveRefs(self, siblings, lookup)
 		if err == nil {
+			for d, ok := re.(*DisabledExp); ok; d, ok = re.(*DisabledExp) {
+				// The dimensions come from the value, whether or not it
+				// ends up being disabled.
+				re = d.Value
+			}
 			switch rs := re.(type) {
 			case *RefExp:
 				src = &BoundReference{
